@@ -57,7 +57,7 @@ Theorem two_sum_exact (a b : PrimFloat.float) :
   fin a -> fin b ->
   Rabs (R_of a) <= bpow radix2 1000 -> Rabs (R_of b) <= bpow radix2 1000 ->
   let '(s, e) := two_sum a b in
-  fin s /\ fin e /\ R_of s + R_of e = R_of a + R_of b.
+  fin s /\ fin e /\ R_of s = rnd (R_of a + R_of b) /\ R_of s + R_of e = R_of a + R_of b.
 Proof.
   intros Fa Fb Ba Bb. unfold two_sum.
   set (A := R_of a) in *. set (B := R_of b) in *.
@@ -99,11 +99,11 @@ Proof.
   destruct (T EA' EB' 1004%Z BEA' BEB') as [H6 _]. pose proof (rnd_bound _ 1005%Z ltac:(lia) H6) as H6'.
   destruct (add_R ea' eb' Fea' Feb') as [Ee Fe]. { bnd 1005%Z. exact H6'. }
   fold EA' EB' in Ee.
-  split; [exact Fs|]. split; [exact Fe|].
+  split; [exact Fs|]. split; [exact Fe|]. split; [exact Es|].
   fold S. rewrite Ee, Eea', Eeb', Eea, Eeb, Es.
   apply (TwoSum_correct (-1074) 53 (fun x => negb (Z.even x))); try lia.
   - exact choiceE.
   - apply format_R_of.
   - apply format_R_of.
 Qed.
-Print Assumptions two_sum_exact.
+
